@@ -7,6 +7,7 @@ import (
 	"runtime/trace"
 
 	"github.com/bits-and-blooms/bitset"
+	"github.com/gordian-engine/gordian/gcrypto"
 	"github.com/gordian-engine/gordian/internal/gchan"
 	"github.com/gordian-engine/gordian/internal/verifhook"
 	"github.com/gordian-engine/gordian/tm/tmconsensus"
@@ -255,41 +256,50 @@ func (s *ChattyStrategy) broadcastUpdatesOnly(ctx context.Context, prev, cur tmc
 		}
 	}
 
-	// Compare the count of set bits in the signature bitsets
+	// Compare the signers per vote target
 	// to determine if we need to broadcast updates for those.
+	// Comparing only the count of distinct signers across all targets would miss
+	// a validator's vote for a second target, and votes for a new target
+	// from validators who already voted.
 
-	prevPrevoteBitset := bitset.New(0)
-	var bs bitset.BitSet
-	for _, p := range prev.PrevoteProofs {
-		p.SignatureBitSet(&bs)
-		prevPrevoteBitset.InPlaceUnion(&bs)
-	}
-	curPrevoteBitset := bitset.New(0)
-	for _, p := range cur.PrevoteProofs {
-		p.SignatureBitSet(&bs)
-		curPrevoteBitset.InPlaceUnion(&bs)
-	}
-	if curPrevoteBitset.Count() != prevPrevoteBitset.Count() {
+	if voteProofsChanged(prev.PrevoteProofs, cur.PrevoteProofs) {
 		if !s.broadcastPrevotes(ctx, cur) {
 			return false
 		}
 	}
 
-	prevPrecommitBitset := bitset.New(0)
-	for _, p := range prev.PrecommitProofs {
-		p.SignatureBitSet(&bs)
-		prevPrecommitBitset.InPlaceUnion(&bs)
-	}
-	curPrecommitBitset := bitset.New(0)
-	for _, p := range cur.PrecommitProofs {
-		p.SignatureBitSet(&bs)
-		curPrecommitBitset.InPlaceUnion(&bs)
-	}
-	if curPrecommitBitset.Count() != prevPrecommitBitset.Count() {
+	if voteProofsChanged(prev.PrecommitProofs, cur.PrecommitProofs) {
 		if !s.broadcastPrecommits(ctx, cur) {
 			return false
 		}
 	}
 
 	return true
+}
+
+// voteProofsChanged reports whether cur has a vote target that prev lacks,
+// or a different number of signers for any target.
+// Within one height and round the signers of a target only grow,
+// so the per-target count suffices.
+func voteProofsChanged(prev, cur map[string]gcrypto.CommonMessageSignatureProof) bool {
+	if len(cur) != len(prev) {
+		return true
+	}
+
+	var bs bitset.BitSet
+	for hash, curProof := range cur {
+		prevProof, ok := prev[hash]
+		if !ok {
+			return true
+		}
+
+		curProof.SignatureBitSet(&bs)
+		curCount := bs.Count()
+		prevProof.SignatureBitSet(&bs)
+		if curCount != bs.Count() {
+			return true
+		}
+	}
+
+	return false
 }
